@@ -1,10 +1,12 @@
 #!/bin/bash
-# tools/confirm_queue.sh : run tools/confirm_seed.sh for every id listed in /tmp/confirm-queue.txt (appended to by hand), one at a time.
-touch /tmp/confirm-queue.txt /tmp/confirm-done.txt
+# tools/confirm_queue.sh <name> : run tools/confirm_seed.sh for every line "<id> [wt]" of /tmp/confirm-queue-<name>.txt (appended to by hand),
+# one at a time; finished lines go to /tmp/confirm-done-<name>.txt.  Several queues with different names can run side by side.
+Q=/tmp/confirm-queue-$1.txt; D=/tmp/confirm-done-$1.txt
+touch $Q $D
 while true; do
-  LINE=$(grep -vxFf /tmp/confirm-done.txt /tmp/confirm-queue.txt | head -1)
+  LINE=$(grep -vxFf $D $Q | head -1)
   if [ -z "$LINE" ]; then sleep 30; continue; fi
   ID=${LINE%% *}
   T=${T:-5} /verif/tools/confirm_seed.sh $LINE > /tmp/confirm-$ID.log 2>&1
-  echo "$LINE" >> /tmp/confirm-done.txt
+  echo "$LINE" >> $D
 done
